@@ -9,8 +9,10 @@ Mirrors the code that exists:
 * `types.MappingWithEquals.OverrideBy / Resolve`, `types.Mapping.Resolve` (types/mapping.go),
 * `types.Project.WithServicesEnvironmentResolved`, `WithServicesLabelsResolved`,
   `loadEnvFile`, `loadLabelFile`, `loadMappingFile` (types/project.go),
-* `dotenv.ParseWithLookup` restricted to *already tokenised simple lines*
-  (`KEY=<literals and ${REF}s>`, bare `KEY`, one rejected line) — the lexical grammar is C18's;
+* `dotenv.ParseWithLookup` on *tokenised lines*: `KEY=<template>` where the value is an AST of the Compose
+  interpolation grammar (C07: literals, `$$`, `$NAME`, `${NAME}`, `${NAME<op>arg}`) evaluated by C07's model of
+  `template.Substitute` on its rendering, bare `KEY`, one rejected line.  The lexical grammar is C18's
+  (`Props/C16.parseLines_is_dotenv_parse` ties the tokens to C18's model run on the rendered text);
   what is modelled here is the **lookup chain**: `expandVariables` asks the caller's lookup
   first and the lines already parsed in this file second; a bare `KEY` asks the lookup only,
 * `dotenv.ParseWithFormat` with the (empty) format registry of the library,
